@@ -77,6 +77,8 @@ class Exporter:
                             # header candidate: removing it breaks this level's cycles (inner loops remain)
                             it = self.an.op(b, t["args"][0])
                             cand = self.path_of(it, iterating=True)
+                            self._loop_owner = getattr(self, "_loop_owner", {})
+                            self._loop_owner[cand] = self.loop_source_owner(it)
                             inner = sub_sccs(b, cs - {blk})
                             if all(len(set(ic)) < len(cs) for ic in inner):
                                 if hdr is None or self.order.get(blk, 0) < self.order.get(hdr, 0):
@@ -91,6 +93,29 @@ class Exporter:
             ctx = [(d, s) for (cs, s, d, h) in info if blk in cs]
             ctx.sort()
             self._nest[blk] = tuple(s for d, s in ctx)
+
+    def loop_source_owner(self, it):
+        """Owner (adt, field) of the collection a loop iterates."""
+        x = peel(it)
+        seen = 0
+        while seen < 12:
+            seen += 1
+            if x[0] == "field":
+                return (x[3], x[2])
+            if x[0] == "phi":
+                for m in x[1]:
+                    r = self.loop_source_owner(m)
+                    if r[0]:
+                        return r
+                return (None, None)
+            if x[0] == "call" and x[3]:
+                x = peel(x[3][0])
+                continue
+            if x[0] in ("some", "tfield", "downcast"):
+                x = peel(x[1])
+                continue
+            break
+        return (None, None)
 
     def loopctx(self, blk):
         return self._nest.get(blk, ())
@@ -133,6 +158,20 @@ class Exporter:
         if k == "const":
             return "const:%s" % e[1]
         return "?%s" % k
+
+    def owner_of(self, e):
+        """(adt path, field name) of the innermost ADT field an expression reads, or the enum variant payload."""
+        e = peel(e)
+        if e[0] == "field":
+            if e[1][0] == "downcast" or peel(e[1])[0] == "downcast":
+                d = e[1] if e[1][0] == "downcast" else peel(e[1])
+                return (e[3], "%s.%s" % (d[2], e[2]))
+            return (e[3], e[2])
+        if e[0] == "some":
+            return self.owner_of(e[1])
+        if e[0] == "tfield":
+            return self.owner_of(e[1])
+        return (None, None)
 
     # ---- conditions -----------------------------------------------------------
     def condctx(self, blk):
@@ -196,13 +235,13 @@ class Exporter:
             n = e[2].npath
             m = TO_BE.match(n)
             if m:
-                return ("atom", self.path_of(e[3][0]), W.get(m.group(2)), "to_be_bytes")
+                return ("atom", self.path_of(e[3][0]), W.get(m.group(2)), "to_be_bytes", self.owner_of(e[3][0]))
             if TO_LE.match(n):
                 return ("atom", self.path_of(e[3][0]), None, "LITTLE-ENDIAN:" + n)
             if n in ("std::net::Ipv4Addr::octets",):
-                return ("atom", self.path_of(e[3][0]), 4, "octets")
+                return ("atom", self.path_of(e[3][0]), 4, "octets", self.owner_of(e[3][0]))
             if n in ("std::net::Ipv6Addr::octets",):
-                return ("atom", self.path_of(e[3][0]), 16, "octets")
+                return ("atom", self.path_of(e[3][0]), 16, "octets", self.owner_of(e[3][0]))
             if n in ("std::slice::<impl [T]>::to_vec",):
                 return self.content(e[3][0], depth + 1)
             if e[2].local:
@@ -214,7 +253,7 @@ class Exporter:
                 return ("enc", self.path_of(inner[3][0]) if inner[3] else "?", inner[2].path)
             return ("unknown", canon(e)[:120])
         if k in ("field", "tfield", "downcast", "some"):
-            return ("bytes", self.path_of(e))
+            return ("bytes", self.path_of(e), self.owner_of(e))
         if k == "array":
             return ("seq", [self.content(x, depth + 1) for x in e[1]])
         if k == "const":
